@@ -93,6 +93,18 @@ fn check(s: &Shape, case: &str, rep: &mut Report) {
             }
             Err(_) => rep.violation(&format!("{}/header", tname), case, detail("writer failed on a two-record file", 0, 0)),
         }
+        // ... and the same two records through the consuming bulk route
+        let mut shp = std::io::Cursor::new(Vec::new());
+        let res = {
+            let w = ShapeWriter::new(&mut shp);
+            crate::e_c09::write_tail(w, &[&pair[0], &pair[1]])
+        };
+        let shp = shp.into_inner();
+        let second = 100 + 8 + 4 + fb.len();
+        rep.count("second_record_headers_checked(bulk route)", 1);
+        if res.is_err() || shp.len() != second + 8 + 4 + buf.len() || i32::from_be_bytes([shp[second + 4], shp[second + 5], shp[second + 6], shp[second + 7]]) as i64 * 2 != buf.len() as i64 + 4 || shp[second + 12..] != buf[..] {
+            rep.violation(&format!("{}/header", tname), case, detail("write_shapes: second record header or content differ from the shape's own size / bytes", shp.len(), second + 12 + buf.len()));
+        }
     }
     rep.sample(|| J::obj(vec![("case", J::s(case)), ("parts", J::UInt(p as u64)), ("points", J::UInt(n as u64)), ("announced", J::UInt(announced as u64)), ("emitted", J::UInt(buf.len() as u64))]));
 }
@@ -122,7 +134,7 @@ pub fn run(ctx: &Ctx) -> Report {
         }
         // part counts around 64 and 128 (two vertices per part)
         if !gen::is_point(t) && !gen::is_multipoint(t) && !cfg!(miri) {
-            for p in [63usize, 64, 65, 127, 128, 129, 300] {
+            for p in [63usize, 64, 65, 127, 128, 129, 300, 511, 512, 513, 1025, 4097] {
                 items.push((t, p, 2, 0));
             }
         }
